@@ -113,6 +113,13 @@ def step (line : String) : String :=
     match parseFilterVal f, parseParmsVal p, parseInflate i, bytesOfHex h with
     | some f, some p, some tab, some d => showRes (streamDecodeRaw (lookupInflate tab) f p d)
     | _, _, _, _ => "bad-op"
+  | ["streamx", fb, pos, len, h] =>
+    match pos.toNat?, (if len == "none" then some none else len.toInt?.map some), bytesOfHex h with
+    | some pos, some len, some d =>
+      match streamRead (fb == "1") d pos len with
+      | .ok (data, e) => "B " ++ hexOrDash data ++ " " ++ toString e
+      | .error e => "E " ++ e.name
+    | _, _, _ => "bad-op"
   | ["stream", pos, len, h] =>
     match pos.toNat?, len.toNat?, bytesOfHex h with
     | some pos, some len, some d => showRes (streamPayload d pos len)
